@@ -1,7 +1,45 @@
 import A2Verif.Model.Hex
-/-! driver family `c11` (stub until the family is built) -/
-namespace A2Verif.Drv.C11
+import A2Verif.Model.CmdSkel
+import A2Verif.Gen.CmdSkel
+/-!
+driver family `c11`:
 
-def handle (_toks : List String) : String := "bad-request"
+* `c11 admits <cmd> <failcats|-> <failAt|-> <n> <ok|err|panic> <0|1>` → `yes` / `no`:
+  does the generated skeleton of `<cmd>` have a path, under the scenario "the fallible steps of the
+  listed categories fail (at iteration `failAt` of the innermost loop), nothing else fails, every
+  loop runs `n` times", that ends with the given exit class and (if the last field is `1`) has
+  written the file?
+* `c11 props <cmd>` → `savelast=<0|1> readonly=<0|1>`
+-/
+namespace A2Verif.Drv.C11
+open A2Verif.CmdSkel
+
+def b (x : Bool) : String := if x then "1" else "0"
+
+def handle (toks : List String) : String :=
+  match toks with
+  | ["props", cmd] =>
+    match A2Verif.Gen.CmdSkel.names.lookup cmd with
+    | none => "unknown-command"
+    | some c =>
+      match A2Verif.Gen.CmdSkel.all.lookup c with
+      | none => "unknown-command"
+      | some k => s!"savelast={b (SaveLast k)} readonly={b (ReadOnly k)}"
+  | ["admits", cmd, cats, at_, n, ex, ch] =>
+    match A2Verif.Gen.CmdSkel.names.lookup cmd, A2Verif.Hex.parseNatList cats, n.toNat? with
+    | some c, some cs, some nn =>
+      match A2Verif.Gen.CmdSkel.all.lookup c with
+      | none => "unknown-command"
+      | some k =>
+        let failAt : Option (Option Nat) := if at_ == "-" then some none else at_.toNat?.map some
+        let e : Option Nat := if ex == "ok" then some 1 else if ex == "err" then some 2 else if ex == "panic" then some 3 else none
+        let changed : Option Bool := if ch == "1" then some true else if ch == "0" then some false else none
+        match failAt, e, changed with
+        | some fa, some e, some chg =>
+          if admits { failCats := cs, failAt := fa, n := nn } k e chg then "yes" else "no"
+        | _, _, _ => "bad-request"
+    | none, _, _ => "unknown-command"
+    | _, _, _ => "bad-request"
+  | _ => "bad-request"
 
 end A2Verif.Drv.C11
